@@ -14,6 +14,10 @@ C19 driver. Graph tokens: `<edges> <biases>`; edges = comma list of `a:b:num/den
  api <edges> <biases> <beta> <ops> <words>  → `<state> <energy>` after every public call (see c19.rs), verdict
  rd <sorted list>                   → `remove_doubles` (values of odd multiplicity)
  energy <edges> <biases> <state>   → `<get_energy> <edge-list energy>`
+ paritywit <edges> <biases> <beta> <ns> <ne> <state0> <nsteps> <rngseed>
+      → `mixing` | `conserved`: the model's decision of the irreducibility condition (M) of
+        `Qmc.C19.step_irreducible_iff` for `do_time_step(.., only_basic_moves = true)`:
+        ns odd, or ns ≥ 1 ∧ β > 0 ∧ the reported energy is not constant (ns = `-` → max 1 (n/2))
 -/
 
 def parseEdge (s : String) : Edge :=
@@ -72,6 +76,16 @@ def apiRun (edges : List Edge) (biases : List Rat) (ch : Rat → Rat) :
     let out := if consumed then s!"{showBits a'.s} -" else s!"{showBits a'.s} {showRat (getEnergy bm biases a'.s)}"
     apiRun edges biases ch ops a' (out :: acc)
 
+/-- the reported energy takes the same value on all `2^n` configurations -/
+def energyConst (g : Sampler) : Bool :=
+  match statesOrdered g.biases.length with
+  | [] => true
+  | s0 :: rest => rest.all fun s => getEnergy g.bm g.biases s == getEnergy g.bm g.biases s0
+
+/-- executable form of condition (M) (`Qmc.ClassicalErgodic.mixing_iff`) -/
+def mixingB (g : Sampler) (beta : Rat) (ns : Nat) : Bool :=
+  ns % 2 == 1 || (decide (1 ≤ ns) && decide (0 < beta) && !energyConst g)
+
 def step (toks : List String) : String :=
   match toks with
   | ["traj", edges, biases, beta, imp, ns, ne, nw, basic, state0, nsteps, words] =>
@@ -118,6 +132,11 @@ def step (toks : List String) : String :=
     let bs := parseRats biases
     let (outs, rs') := apiRun es bs (chOf (parseRat beta)) (ops.splitOn ",") { rs := RS.ofScript (parseNats words) } []
     if rs'.panicked then "PANIC" else String.intercalate " " (outs ++ [rs'.verdict])
+  | ["paritywit", edges, biases, beta, ns, _ne, _state0, _nsteps, _seed] =>
+    let g := Sampler.new (parseEdges edges) (parseRats biases) false
+    let n := g.biases.length
+    let nsv := (parseOptNat ns).getD (max 1 (n / 2))
+    if mixingB g (parseRat beta) nsv then "mixing" else "conserved"
   | ["rd", l] => showNats (removeDoubles (parseNats l))
   | ["energy", edges, biases, state] =>
     let g := Sampler.new (parseEdges edges) (parseRats biases) false
